@@ -80,6 +80,8 @@ fn main() {
                 "compact_level" => dbops.push(api::DbOp::CompactLevel(t[2].parse().unwrap(), if t[3] == "-" { None } else { Some(unhex(t[3])) }, if t[4] == "-" { None } else { Some(unhex(t[4])) })),
                 "release" => dbops.push(api::DbOp::ReleaseSnapshot),
                 "reopen_small" => dbops.push(api::DbOp::ReopenSmallFiles(t[2].parse().unwrap())),
+                // damage_manifest <bytes before the end> <xor mask>
+                "damage_manifest" => dbops.push(api::DbOp::DamageManifest(t[2].parse().unwrap(), t[3].parse().unwrap())),
                 _ => panic!("bad db op"),
             },
             "entry" => entries.push((unhex(t[1]), t[2].parse().unwrap(), t[3].parse().unwrap(), unhex(t[4]))),
@@ -177,7 +179,7 @@ fn main() {
                     api::DbOp::Batch(ops) => { for (k, v) in ops { model.insert(k.clone(), v.clone()); allkeys.insert(k.clone()); } }
                     api::DbOp::Snapshot => frozen.push((i, model.clone())),
                     api::DbOp::PinIterator(_) => frozen_pins.push((i, model.clone())),
-                    api::DbOp::Reopen(_) | api::DbOp::ReopenSmallFiles(_) => { frozen.clear(); frozen_pins.clear(); }
+                    api::DbOp::Reopen(_) | api::DbOp::ReopenSmallFiles(_) | api::DbOp::DamageManifest(_, _) => { frozen.clear(); frozen_pins.clear(); }
                     api::DbOp::ReleaseSnapshot => { if !frozen.is_empty() { frozen.remove(0); } }
                     _ => {}
                 }
@@ -187,6 +189,11 @@ fn main() {
             for k in &allkeys { keys.push(k.clone()); let mut k2 = k.clone(); k2.push(0); keys.push(k2); }
             keys.push(vec![]);
             let (views, pins) = api::run_views_and_pins(&dbops, &keys, &moves);
+            if let Some(e) = api::open_refused() {
+                // C15: the damaged file was detected - `open` failed instead of serving wrong data
+                println!("REPLAY holds oracle=db_views open refused the damaged manifest: {}", e.replace('\n', " "));
+                return;
+            }
             let mut bad = vec![];
             // iterators created in the middle of the history and read at the end: the state at creation
             for pscan in &pins {
